@@ -68,7 +68,11 @@ func partA(r *vx.Run, e *bcx.Env) {
 							if !r.Mine(idx) || r.Expired("light-block grammar") {
 								continue
 							}
-							runA(r, e, ltTopic, txCount, nh, miner, hdr, first, second, maxLen)
+							runA(r, e, ltTopic, txCount, nh, miner, hdr, first, second, maxLen, false)
+							if first == second {
+								// the same block arriving while another (well-formed) light block is waiting for a transaction
+								runA(r, e, ltTopic, txCount, nh, miner, hdr, first, second, maxLen, true)
+							}
 						}
 					}
 				}
@@ -77,9 +81,13 @@ func partA(r *vx.Run, e *bcx.Env) {
 	}
 }
 
-func runA(r *vx.Run, e *bcx.Env, ltTopic string, txCount int64, nh int, miner, hdr bool, first, second, maxLen int) {
+func runA(r *vx.Run, e *bcx.Env, ltTopic string, txCount int64, nh int, miner, hdr bool, first, second, maxLen int, behind bool) {
 	name := fmt.Sprintf("lightblock txCount=%d hashes=%d minerTx=%v header=%v first=%d later=%d", txCount, nh, miner, hdr, first, second)
 	kase := map[string]interface{}{"txCount": txCount, "hashes": nh, "minerTx": miner, "header": hdr, "firstAnswers": first, "laterAnswers": second}
+	if behind {
+		name += " behind-a-pending-light-block"
+		kase["behindPending"] = true
+	}
 	followOK := false
 	res := vrt.Execute(func() {
 		e.Reset()
@@ -105,6 +113,12 @@ func runA(r *vx.Run, e *bcx.Env, ltTopic string, txCount int64, nh int, miner, h
 			}
 		}
 		set(first)
+		if behind {
+			p1, p2 := bcx.Tx(1), bcx.Tx(7001) // 7001 never reaches the pool: the block stays pending until its time-out
+			pb := &types.Block{Height: 49, BlockTime: 1700000000, ParentHash: bytes.Repeat([]byte{6}, 32), StateHash: bytes.Repeat([]byte{9}, 32), Txs: []*types.Transaction{p1, p2}}
+			pb.TxHash = merkle.CalcMerkleRoot(e.Cfg, pb.Height, pb.Txs)
+			v.Receive(ltTopic, v.BuildLight(pb), e.Peer, e.Peer)
+		}
 		v.Receive(ltTopic, lb, e.Peer, e.Peer)
 		vtime.Sleep(250 * vtime.Millisecond)
 		set(second)
@@ -137,7 +151,7 @@ func runA(r *vx.Run, e *bcx.Env, ltTopic string, txCount int64, nh int, miner, h
 	case !followOK:
 		cls = "loop-stopped"
 	}
-	r.Seen("distinct", fmt.Sprintf("A txCount=%d hashes=%d miner=%v %s", txCount, nh, miner, cls))
+	r.Seen("distinct", fmt.Sprintf("A txCount=%d hashes=%d miner=%v behind=%v %s", txCount, nh, miner, behind, cls))
 	if first != second && nh > 0 {
 		r.SampleN(3, kase)
 	}
